@@ -1,5 +1,331 @@
-//! C14 monitors that need more room: I5 order-freedom and I7 updater consistency.
+//! C14 monitors that need more room: I4b/I5 order-freedom and I7 updater consistency.
+
+use std::collections::{BTreeMap, BTreeSet};
+
+use bitcoin::bip32::KeySource;
+use bitcoin::hashes::Hash;
 use bitcoin::psbt::Psbt;
+use bitcoin::taproot::TapLeafHash;
+use miniscript::psbt::PsbtExt;
+use miniscript::Descriptor;
+
+use crate::gen::OutKind;
+use crate::keys::KeyForm;
+use crate::monitors::{guard, hash160_of, raise, sha256_of};
+use crate::rng::{fnv, mix, Rng};
 use crate::sim::World;
-pub fn check_order_free(_w: &mut World, _actor: &str, _before: &Psbt, _after: &Psbt, _mall: bool) {}
-pub fn check_updater(_w: &mut World, _psbt: &Psbt, _i: usize, _before: &bitcoin::psbt::Input, _subset: bool) {}
+use crate::vm;
+
+fn finals(p: &Psbt) -> Vec<(Option<bitcoin::ScriptBuf>, Option<bitcoin::Witness>)> { p.inputs.iter().map(|i| (i.final_script_sig.clone(), i.final_script_witness.clone())).collect() }
+
+pub fn check_order_free(w: &mut World, actor: &str, before: &Psbt, after: &Psbt, mall: bool) {
+    let secp = w.env.secp.clone();
+    let n = before.inputs.len();
+    // (1) by-value variant agrees with the _mut variant
+    let bv = guard(w, "finalize by value", actor, |_| {
+        let r = if mall { before.clone().finalize_mall(&secp) } else { before.clone().finalize(&secp) };
+        match r {
+            Ok(p) => p,
+            Err((p, _)) => p,
+        }
+    });
+    if let Some(p) = bv {
+        if p != *after {
+            raise(w, "C14", "I4b", format!("finalize{} by value and finalize{}_mut disagree", if mall { "_mall" } else { "" }, if mall { "_mall" } else { "" }), actor);
+            return;
+        }
+    }
+    // (2) one input at a time, in reverse order
+    let mut one = before.clone();
+    for i in (0..n).rev() {
+        let r = guard(w, "finalize_inp", actor, |_| if mall { one.finalize_inp_mall_mut(&secp, i).is_ok() } else { one.finalize_inp_mut(&secp, i).is_ok() });
+        if r.is_none() {
+            return;
+        }
+    }
+    if finals(&one) != finals(after) {
+        let which: Vec<usize> = (0..n).filter(|i| finals(&one)[*i] != finals(after)[*i]).collect();
+        raise(
+            w,
+            "C14",
+            "I5-single",
+            format!("finalising inputs one by one with finalize_inp{}_mut gives a different result than finalize{}_mut for inputs {:?}", if mall { "_mall" } else { "" }, if mall { "_mall" } else { "" }, which),
+            actor,
+        );
+        return;
+    }
+    // (3) rebuild the same fact set in a permuted insertion order through combine + serialisation
+    let mut base = before.clone();
+    let mut facts: Vec<Psbt> = vec![];
+    let empty = || {
+        let mut p = Psbt::from_unsigned_tx(before.unsigned_tx.clone()).expect("unsigned");
+        p.outputs = before.outputs.clone();
+        p
+    };
+    for i in 0..n {
+        if before.inputs[i].final_script_sig.is_some() || before.inputs[i].final_script_witness.is_some() {
+            continue;
+        }
+        let inp = &before.inputs[i];
+        for (k, v) in &inp.partial_sigs {
+            let mut p = empty();
+            p.inputs[i].partial_sigs.insert(*k, *v);
+            facts.push(p);
+        }
+        for (k, v) in &inp.tap_script_sigs {
+            let mut p = empty();
+            p.inputs[i].tap_script_sigs.insert(*k, *v);
+            facts.push(p);
+        }
+        if let Some(s) = inp.tap_key_sig {
+            let mut p = empty();
+            p.inputs[i].tap_key_sig = Some(s);
+            facts.push(p);
+        }
+        for (k, v) in &inp.sha256_preimages {
+            let mut p = empty();
+            p.inputs[i].sha256_preimages.insert(*k, v.clone());
+            facts.push(p);
+        }
+        for (k, v) in &inp.hash256_preimages {
+            let mut p = empty();
+            p.inputs[i].hash256_preimages.insert(*k, v.clone());
+            facts.push(p);
+        }
+        for (k, v) in &inp.ripemd160_preimages {
+            let mut p = empty();
+            p.inputs[i].ripemd160_preimages.insert(*k, v.clone());
+            facts.push(p);
+        }
+        for (k, v) in &inp.hash160_preimages {
+            let mut p = empty();
+            p.inputs[i].hash160_preimages.insert(*k, v.clone());
+            facts.push(p);
+        }
+        let b = &mut base.inputs[i];
+        b.partial_sigs.clear();
+        b.tap_script_sigs.clear();
+        b.tap_key_sig = None;
+        b.sha256_preimages.clear();
+        b.hash256_preimages.clear();
+        b.ripemd160_preimages.clear();
+        b.hash160_preimages.clear();
+    }
+    let mut r = Rng::new(mix(&[w.env.run_seed, fnv(actor.as_bytes()), w.stats.attempts, 0x4935]));
+    r.shuffle(&mut facts);
+    let mut rebuilt = base;
+    for f in facts {
+        let bytes = f.serialize();
+        let f2 = match Psbt::deserialize(&bytes) {
+            Ok(p) => p,
+            Err(_) => return,
+        };
+        if rebuilt.combine(f2).is_err() {
+            return;
+        }
+    }
+    let bytes = rebuilt.serialize();
+    let mut rebuilt = match Psbt::deserialize(&bytes) {
+        Ok(p) => p,
+        Err(_) => return,
+    };
+    if rebuilt != *before {
+        // combine is rust-bitcoin; a mismatch here is not a miniscript property
+        w.stats.probe("i5_rebuild_not_identical");
+        return;
+    }
+    let rr = guard(w, "finalize (rebuilt)", actor, |_| if mall { rebuilt.finalize_mall_mut(&secp).is_ok() } else { rebuilt.finalize_mut(&secp).is_ok() });
+    if rr.is_some() && finals(&rebuilt) != finals(after) {
+        raise(w, "C14", "I5-order", "finalisation depends on the order in which signatures and other fields were added".to_string(), actor);
+    }
+    w.stats.probe("i5_checked");
+}
+
+fn xonly_of(w: &World, id: usize) -> bitcoin::secp256k1::XOnlyPublicKey { w.env.uni.keys[id].xonly }
+
+/// I7: after the updater ran on input `i`, the recorded fields must be consistent with the
+/// descriptor's output. `subset` = Plan::update_psbt_input (only what the plan needs).
+pub fn check_updater(w: &mut World, psbt: &Psbt, i: usize, before: &bitcoin::psbt::Input, subset: bool) {
+    let env = w.env.clone();
+    let ic = &env.inputs[i];
+    let inp = &psbt.inputs[i];
+    let spk = ic.spk.as_bytes();
+    let text = &ic.spec.text;
+    // UTXO fields must be untouched
+    if inp.witness_utxo != before.witness_utxo || inp.non_witness_utxo != before.non_witness_utxo {
+        raise(w, "C14", "I7-utxo", format!("updater changed the UTXO fields: {}", text), "coord");
+        return;
+    }
+    // scripts hash to the scriptPubKey
+    match ic.kind {
+        OutKind::Wsh => {
+            match &inp.witness_script {
+                Some(ws) if spk.len() == 34 && sha256_of(ws.as_bytes())[..] == spk[2..] => {}
+                other => {
+                    raise(w, "C14", "I7-script", format!("witness_script {:?} does not hash to the scriptPubKey: {}", other.as_ref().map(|s| s.len()), text), "coord");
+                    return;
+                }
+            }
+            if inp.redeem_script.is_some() {
+                raise(w, "C14", "I7-script", format!("redeem_script set on a native wsh input: {}", text), "coord");
+            }
+        }
+        OutKind::ShMs | OutKind::ShWpkh => match &inp.redeem_script {
+            Some(rs) if spk.len() == 23 && hash160_of(rs.as_bytes())[..] == spk[2..22] => {}
+            other => {
+                raise(w, "C14", "I7-script", format!("redeem_script {:?} does not hash to the scriptPubKey: {}", other.as_ref().map(|s| s.len()), text), "coord");
+                return;
+            }
+        },
+        OutKind::ShWsh => {
+            let ok = match (&inp.redeem_script, &inp.witness_script) {
+                (Some(rs), Some(ws)) => {
+                    spk.len() == 23 && hash160_of(rs.as_bytes())[..] == spk[2..22] && rs.len() == 34 && rs.as_bytes()[0] == 0 && rs.as_bytes()[1] == 0x20 && sha256_of(ws.as_bytes())[..] == rs.as_bytes()[2..]
+                }
+                _ => false,
+            };
+            if !ok {
+                raise(w, "C14", "I7-script", format!("sh(wsh) redeem/witness scripts are not consistent with the scriptPubKey: {}", text), "coord");
+                return;
+            }
+        }
+        _ => {}
+    }
+    // key origins
+    let expected_origin = |id: usize| -> KeySource { env.uni.keys[id].origin.clone() };
+    match ic.kind {
+        OutKind::TrKey | OutKind::TrScript => {
+            let tr = match &ic.desc {
+                Descriptor::Tr(t) => t,
+                _ => return,
+            };
+            let (rt, ik_id) = match crate::mon_ref::ref_taproot_of(&env, tr) {
+                Some(x) => x,
+                None => return,
+            };
+            if !subset {
+                if inp.tap_internal_key.map(|k| k.serialize()) != Some(rt.internal) {
+                    raise(w, "C14", "I7-tap", format!("tap_internal_key differs from the descriptor's internal key: {}", text), "coord");
+                    return;
+                }
+                if inp.tap_merkle_root.map(|r| r.to_byte_array()) != rt.merkle_root {
+                    raise(w, "C14", "I7-tap", format!("tap_merkle_root differs from the BIP341 reference (R4): {}", text), "coord");
+                    return;
+                }
+                // every leaf present with a control block that proves it against the output key
+                let mut seen_scripts: BTreeSet<Vec<u8>> = BTreeSet::new();
+                for (cb, (script, ver)) in &inp.tap_scripts {
+                    let cbb = cb.serialize();
+                    let lh = vm::tapleaf_hash(ver.to_consensus(), script.as_bytes());
+                    if spk.len() != 34 || !vm::check_taproot_commitment(&env.secp, &cbb, &spk[2..], &lh) {
+                        raise(w, "C14", "I7-tap", format!("a (control block, script) pair in tap_scripts does not verify against the output key: {}", text), "coord");
+                        return;
+                    }
+                    seen_scripts.insert(script.as_bytes().to_vec());
+                }
+                let want: BTreeSet<Vec<u8>> = rt.leaves.iter().map(|l| l.script.clone()).collect();
+                if seen_scripts != want {
+                    raise(w, "C14", "I7-tap", format!("tap_scripts does not contain exactly the descriptor's leaves ({} vs {}): {}", seen_scripts.len(), want.len(), text), "coord");
+                    return;
+                }
+                // reference control blocks must be among those recorded
+                for (li, _) in rt.leaves.iter().enumerate() {
+                    let cb = rt.control_block(li);
+                    if !inp.tap_scripts.keys().any(|k| k.serialize() == cb) {
+                        raise(w, "C14", "I7-tap", format!("control block for leaf {} differs from the BIP341 reference (R4): {}", li, text), "coord");
+                        return;
+                    }
+                }
+                // tap_key_origins: exactly the descriptor's keys, each with exactly the leaves it occurs in
+                let mut want: BTreeMap<[u8; 32], (BTreeSet<TapLeafHash>, Option<KeySource>)> = BTreeMap::new();
+                if let Some(id) = ik_id {
+                    want.insert(xonly_of(w, id).serialize(), (BTreeSet::new(), Some(expected_origin(id))));
+                } else {
+                    want.insert(rt.internal, (BTreeSet::new(), None));
+                }
+                for (li, leaf) in tr.leaves().enumerate() {
+                    for pk in leaf.miniscript().iter_pk() {
+                        if let Some(id) = env.by_expr.get(&pk.to_string()) {
+                            let e = want.entry(xonly_of(w, *id).serialize()).or_insert((BTreeSet::new(), Some(expected_origin(*id))));
+                            e.0.insert(TapLeafHash::from_byte_array(rt.leaves[li].leaf_hash));
+                        }
+                    }
+                }
+                let got: BTreeMap<[u8; 32], (BTreeSet<TapLeafHash>, KeySource)> = inp.tap_key_origins.iter().map(|(k, (l, o))| (k.serialize(), (l.iter().copied().collect(), o.clone()))).collect();
+                if got.keys().collect::<Vec<_>>() != want.keys().collect::<Vec<_>>() {
+                    raise(w, "C14", "I7-origin", format!("tap_key_origins has {} keys, descriptor has {}: {}", got.len(), want.len(), text), "coord");
+                    return;
+                }
+                for (k, (leaves, origin)) in &want {
+                    let g = &got[k];
+                    if g.0 != *leaves {
+                        raise(w, "C14", "I7-origin", format!("tap_key_origins lists leaves {:?} for a key that occurs in {:?}: {}", g.0.len(), leaves.len(), text), "coord");
+                        return;
+                    }
+                    if let Some(o) = origin {
+                        // keys without a derivation path get a library-defined fingerprint; only the path is checked
+                        if (!o.1.is_empty() && g.1 != *o) || (o.1.is_empty() && !g.1 .1.is_empty()) {
+                            raise(w, "C14", "I7-origin", format!("tap_key_origins origin {:?} differs from the key's origin {:?}: {}", g.1, o, text), "coord");
+                            return;
+                        }
+                    }
+                }
+            } else {
+                // subset form: whatever is recorded must be consistent
+                for (cb, (script, ver)) in &inp.tap_scripts {
+                    let lh = vm::tapleaf_hash(ver.to_consensus(), script.as_bytes());
+                    if spk.len() != 34 || !vm::check_taproot_commitment(&env.secp, &cb.serialize(), &spk[2..], &lh) {
+                        raise(w, "C14", "I7-tap", format!("Plan::update_psbt_input recorded a (control block, script) pair that does not verify: {}", text), "coord");
+                        return;
+                    }
+                }
+                if inp.tap_merkle_root.map(|r| r.to_byte_array()) != rt.merkle_root {
+                    raise(w, "C14", "I7-tap", format!("Plan::update_psbt_input: tap_merkle_root differs from R4: {}", text), "coord");
+                }
+            }
+        }
+        _ => {
+            let want: BTreeMap<Vec<u8>, KeySource> = ic.key_ids.iter().map(|id| (env.uni.keys[*id].public.inner.serialize().to_vec(), expected_origin(*id))).collect();
+            let got: BTreeMap<Vec<u8>, KeySource> = inp.bip32_derivation.iter().map(|(k, o)| (k.serialize().to_vec(), o.clone())).collect();
+            if !subset && got.keys().collect::<Vec<_>>() != want.keys().collect::<Vec<_>>() {
+                raise(w, "C14", "I7-origin", format!("bip32_derivation has {} keys, descriptor has {}: {}", got.len(), want.len(), text), "coord");
+                return;
+            }
+            for (k, o) in &got {
+                match want.get(k) {
+                    None => {
+                        raise(w, "C14", "I7-origin", format!("bip32_derivation lists a key that is not in the descriptor: {}", text), "coord");
+                        return;
+                    }
+                    Some(wo) => {
+                        if (!wo.1.is_empty() && o != wo) || (wo.1.is_empty() && !o.1.is_empty()) {
+                            raise(w, "C14", "I7-origin", format!("bip32_derivation origin {:?} differs from the key's origin {:?}: {}", o, wo, text), "coord");
+                            return;
+                        }
+                    }
+                }
+            }
+        }
+    }
+    w.stats.probe("i7_checked");
+    // a descriptor that does not match the UTXO must be refused and leave the input unchanged
+    if !subset && env.inputs.len() > 1 {
+        let other = (i + 1) % env.inputs.len();
+        if env.inputs[other].spk != ic.spk && !env.inputs[other].foreign {
+            let mut copy = psbt.clone();
+            let od = env.inputs[other].desc.clone();
+            let r = guard(w, "update_input_with_descriptor(mismatch)", "coord", |_| copy.update_input_with_descriptor(i, &od));
+            match r {
+                Some(Ok(())) => raise(w, "C14", "I7-mismatch", format!("updater accepted a descriptor that does not match the UTXO: {} on {}", env.inputs[other].spec.text, text), "coord"),
+                Some(Err(_)) => {
+                    if copy.inputs[i] != psbt.inputs[i] {
+                        raise(w, "C14", "I7-mismatch", "updater refused a mismatching descriptor but changed the input".to_string(), "coord");
+                    }
+                    w.stats.probe("i7_mismatch_refused");
+                }
+                None => {}
+            }
+        }
+    }
+    let _ = KeyForm::Single;
+}
